@@ -70,7 +70,7 @@ func stripConv(info *types.Info, e ast.Expr) ast.Expr {
 }
 
 func isTargetDB(info *types.Info, e ast.Expr) bool {
-	return core.IsFieldNamed(info, e, "Configuration", "TargetDB")
+	return FieldIs(info, e, "Configuration", "TargetDB")
 }
 
 // selectArg returns the integer expression whose decimal text is the single
@@ -102,17 +102,17 @@ func r6(c *core.Ctx, p *Parser) {
 				}
 			}
 			if okCmd {
-				c.Okf(rule, key+"/cmd", e.Stmt.Pos(), "Cmd is the command name parsed from the response decoded in this iteration")
+				c.Okf(rule, key+"/cmd", e.Pos(), "Cmd is the command name parsed from the response decoded in this iteration")
 			} else if v, isConst := core.StringConst(info, e.Field["Cmd"]); isConst {
-				c.Failf(rule, key+"/cmd", e.Stmt.Pos(), "every source command is forwarded under the fixed name %q", v)
+				c.Failf(rule, key+"/cmd", e.Pos(), "every source command is forwarded under the fixed name %q", v)
 			} else {
-				c.Undecidedf(rule, key+"/cmd", e.Stmt.Pos(), "cannot trace Cmd `%s` to ParseArgs(resp)", c.Src(e.Field["Cmd"]))
+				c.Undecidedf(rule, key+"/cmd", e.Pos(), "cannot trace Cmd `%s` to ParseArgs(resp)", c.Src(e.Field["Cmd"]))
 			}
 			checkArgs(c, p, e, key, pa)
 			if lastDb := dbVar(info, e.Field["Db"]); lastDb != nil {
 				checkLastDb(c, p, key, lastDb)
 			} else {
-				c.Undecidedf(rule, key+"/db", e.Stmt.Pos(), "Db `%s` is not a local variable", c.Src(e.Field["Db"]))
+				c.Undecidedf(rule, key+"/db", e.Pos(), "Db `%s` is not a local variable", c.Src(e.Field["Db"]))
 			}
 		case "start-db":
 			// handled by StartDb below
@@ -121,11 +121,11 @@ func r6(c *core.Ctx, p *Parser) {
 			db := e.Field["Db"]
 			switch {
 			case arg == nil:
-				c.Undecidedf(rule, key+"/arg-is-db", e.Stmt.Pos(), "cannot read the SELECT argument `%s` as the decimal text of an integer", c.Src(e.Field["Args"]))
+				c.Undecidedf(rule, key+"/arg-is-db", e.Pos(), "cannot read the SELECT argument `%s` as the decimal text of an integer", c.Src(e.Field["Args"]))
 			case pat.Same(info, arg, db) || isTargetDB(info, arg) && isTargetDB(info, db):
-				c.Okf(rule, key+"/arg-is-db", e.Stmt.Pos(), "the SELECT argument and the Db tag are the same value")
+				c.Okf(rule, key+"/arg-is-db", e.Pos(), "the SELECT argument and the Db tag are the same value")
 			default:
-				c.Undecidedf(rule, key+"/arg-is-db", e.Stmt.Pos(), "SELECT argument `%s` and Db tag `%s` are different expressions", c.Src(arg), c.Src(db))
+				c.Undecidedf(rule, key+"/arg-is-db", e.Pos(), "SELECT argument `%s` and Db tag `%s` are different expressions", c.Src(arg), c.Src(db))
 			}
 			fixedTargetDb(c, p, e, rule, key)
 		}
@@ -165,7 +165,7 @@ func checkArgs(c *core.Ctx, p *Parser, e *Enq, key string, pa *ast.CallExpr) {
 	info := p.Info
 	body := p.Fn.Decl.Body
 	k := key + "/args"
-	und := func(format string, a ...interface{}) { c.Undecidedf(rule, k, e.Stmt.Pos(), format, a...) }
+	und := func(format string, a ...interface{}) { c.Undecidedf(rule, k, e.Pos(), format, a...) }
 	id, ok := ast.Unparen(e.Field["Args"]).(*ast.Ident)
 	if !ok {
 		und("Args `%s` is not a local slice", c.Src(e.Field["Args"]))
@@ -228,7 +228,7 @@ func checkArgs(c *core.Ctx, p *Parser, e *Enq, key string, pa *ast.CallExpr) {
 		return
 	}
 	if src == nil {
-		c.Failf(rule, k, e.Stmt.Pos(), "the argument slice is never filled: every command is forwarded without arguments")
+		c.Failf(rule, k, e.Pos(), "the argument slice is never filled: every command is forwarded without arguments")
 		return
 	}
 	o, ok := SoleOrigin(info, body, src)
@@ -246,14 +246,14 @@ func checkArgs(c *core.Ctx, p *Parser, e *Enq, key string, pa *ast.CallExpr) {
 			}
 		}
 		if good {
-			c.Okf(rule, k, e.Stmt.Pos(), "Args is an element-wise copy of HandleFilterKeyWithCommand(cmd, argv) of this iteration's command")
+			c.Okf(rule, k, e.Pos(), "Args is an element-wise copy of HandleFilterKeyWithCommand(cmd, argv) of this iteration's command")
 		} else {
 			und("HandleFilterKeyWithCommand is not applied to (cmd, argv) of this iteration's ParseArgs")
 		}
 		return
 	}
 	if call, ok := CallOrigin(info, o, "pkg/redis", "", "ParseArgs", 1); ok && call == pa {
-		c.Failf(rule, k, e.Stmt.Pos(), "Args copies the unfiltered argument list: keys removed by the key filter are forwarded to the target")
+		c.Failf(rule, k, e.Pos(), "Args copies the unfiltered argument list: keys removed by the key filter are forwarded to the target")
 		return
 	}
 	und("the copied slice `%s` does not come from HandleFilterKeyWithCommand", c.Src(src))
@@ -430,24 +430,24 @@ func checkLastDb(c *core.Ctx, p *Parser, key string, v *types.Var) {
 // startDb: `if ds.startDbId != 0 { enqueue select <startDbId> }` before the loop.
 func startDb(c *core.Ctx, p *Parser, e *Enq, rule, key string) {
 	info := p.Info
-	isStart := func(x ast.Expr) bool { return core.IsFieldNamed(info, x, Syncer, "startDbId") }
+	isStart := func(x ast.Expr) bool { return FieldIs(info, x, Syncer, "startDbId") }
 	arg := selectArg(info, p.Fn.Decl.Body, e.Field["Args"])
 	cmd, _ := core.StringConst(info, e.Field["Cmd"])
 	switch {
 	case !strings.EqualFold(cmd, "select"):
-		c.Undecidedf(rule, key+"/select", e.Stmt.Pos(), "the command enqueued before the loop is not a constant SELECT")
+		c.Undecidedf(rule, key+"/select", e.Pos(), "the command enqueued before the loop is not a constant SELECT")
 	case arg != nil && isStart(arg) && isStart(e.Field["Db"]):
-		c.Okf(rule, key+"/select", e.Stmt.Pos(), "SELECT <ds.startDbId>, tagged with the same database")
+		c.Okf(rule, key+"/select", e.Pos(), "SELECT <ds.startDbId>, tagged with the same database")
 	case arg != nil && (isStart(arg) || isStart(e.Field["Db"])):
-		c.Failf(rule, key+"/select", e.Stmt.Pos(), "the start SELECT names `%s` but is tagged Db `%s`: the resumed stream continues in another database than the checkpoint recorded", c.Src(arg), c.Src(e.Field["Db"]))
+		c.Failf(rule, key+"/select", e.Pos(), "the start SELECT names `%s` but is tagged Db `%s`: the resumed stream continues in another database than the checkpoint recorded", c.Src(arg), c.Src(e.Field["Db"]))
 	default:
-		c.Undecidedf(rule, key+"/select", e.Stmt.Pos(), "cannot read the start SELECT's argument/Db as ds.startDbId")
+		c.Undecidedf(rule, key+"/select", e.Pos(), "cannot read the start SELECT's argument/Db as ds.startDbId")
 	}
 	zero := func(ft cfgq.Fact) bool {
 		eq, ok := EqFact(ft, isStart, func(x ast.Expr) bool { v, ok := core.IntConst(info, x); return ok && v == 0 })
 		return ok && eq
 	}
-	notSend := func(n ast.Node) bool { return n == ast.Node(e.Stmt) }
+	notSend := func(n ast.Node) bool { return n == e.Pt.Node() }
 	w := p.G.Path(cfgq.Query{From: p.G.Entry(), Avoid: notSend, AvoidEdge: p.Fl.Edge(zero), Target: p.IsDecode})
 	if w != nil {
 		// a guard on startDbId of another form is not judged
@@ -456,11 +456,11 @@ func startDb(c *core.Ctx, p *Parser, e *Enq, rule, key string) {
 			return cond != nil && core.MentionsField(info, cond, Syncer, "startDbId")
 		}
 		if p.G.Path(cfgq.Query{From: p.G.Entry(), Avoid: notSend, AvoidEdge: anyTest, Target: p.IsDecode}) == nil {
-			c.Undecidedf(rule, key+"/first", e.Stmt.Pos(), "the start SELECT is guarded by a test of ds.startDbId that is not the known `!= 0` form")
+			c.Undecidedf(rule, key+"/first", e.Pos(), "the start SELECT is guarded by a test of ds.startDbId that is not the known `!= 0` form")
 			return
 		}
 	}
-	c.Check(rule, key+"/first", e.Stmt.Pos(), w == nil,
+	c.Check(rule, key+"/first", e.Pos(), w == nil,
 		"when ds.startDbId != 0 the SELECT of the resumed database must be enqueued before the first source command is decoded: a stream resumed by PSYNC CONTINUE carries no SELECT of its own, so the commands would run in database 0", w...)
 }
 
@@ -493,7 +493,7 @@ func fixedTargetDb(c *core.Ctx, p *Parser, e *Enq, rule, key string) {
 	}
 	if guard == nil {
 		// no skip guard: the SELECT must then be unconditional in its arm; nothing to judge
-		c.Okf(rule, k, e.Stmt.Pos(), "the injected SELECT is not skipped by a comparison with a local database variable")
+		c.Okf(rule, k, e.Pos(), "the injected SELECT is not skipped by a comparison with a local database variable")
 		return
 	}
 	eqEdge := func(ft cfgq.Fact) bool {
@@ -504,7 +504,7 @@ func fixedTargetDb(c *core.Ctx, p *Parser, e *Enq, rule, key string) {
 	skip := p.G.Path(cfgq.Query{From: cfgq.Point{B: guard, I: len(guard.Nodes) - 1}, After: true, Avoid: p.IsSend, Target: p.IsDecode,
 		AvoidEdge: func(b *cfg.Block, s int) bool { return b == guard && !p.Fl.Edge(eqEdge)(b, s) }})
 	if skip == nil {
-		c.Okf(rule, k, e.Stmt.Pos(), "no path skips the SELECT when the compared variable equals target.db")
+		c.Okf(rule, k, e.Pos(), "no path skips the SELECT when the compared variable equals target.db")
 		return
 	}
 	// does the compared variable hold the *source's* database at the guard?
@@ -538,7 +538,7 @@ func fixedTargetDb(c *core.Ctx, p *Parser, e *Enq, rule, key string) {
 		}
 	}
 	if srcAssign == nil {
-		c.Okf(rule, k, e.Stmt.Pos(), "the variable compared with target.db does not hold the source's database at the comparison")
+		c.Okf(rule, k, e.Pos(), "the variable compared with target.db does not hold the source's database at the comparison")
 		return
 	}
 	// any other SELECT on the target connection at start would make the skip safe: not judged then
@@ -563,10 +563,10 @@ func fixedTargetDb(c *core.Ctx, p *Parser, e *Enq, rule, key string) {
 		})
 	}
 	if preselected {
-		c.Undecidedf(rule, k, e.Stmt.Pos(), "the target connection is selected elsewhere; cannot judge the skipped SELECT")
+		c.Undecidedf(rule, k, e.Pos(), "the target connection is selected elsewhere; cannot judge the skipped SELECT")
 		return
 	}
-	c.Check(rule, k, e.Stmt.Pos(), false,
+	c.Check(rule, k, e.Pos(), false,
 		fmt.Sprintf("with target.db = k the injected `SELECT k` is skipped whenever the source's own SELECT argument (`%s`) equals k, although that says nothing about the database the target connection is in. "+
 			"Witness: target.db = 3, fresh target connection (database 0), source stream `SELECT 3; SET a 1`: no SELECT is ever sent and `SET a 1` is applied in database 0 instead of the configured database 3", c.Src(srcAssign)), skip...)
 }
